@@ -736,6 +736,25 @@ class Expander:
                 break
         return args, kw
 
+    def _rows_alias(self):
+        """whether `self.nodes.index` may be read as `self._nodes_in_view` in this function: in methods of the module classes, except
+        where the lists themselves are (re)defined and in the two selection funnels, whose rules speak of the table's index"""
+        r = getattr(self, "_rows_alias_v", None)
+        if r is None:
+            fi = self.fi
+            top = fi
+            while getattr(top, "parent", None) is not None:
+                top = top.parent
+            r = bool(top.cls) and top.name not in ("_at_nodes", "_at_edges", "__getattr__", "__init__", "_init_view", "_set_inds_in_view") and \
+                not any(isinstance(n, ast.Attribute) and isinstance(n.ctx, ast.Store) and n.attr in ("_nodes_in_view", "_edges_in_view") for n in ast.walk(top.node))
+            if r:
+                try:
+                    r = any(b_.name == "Module" for b_ in self.repo.mro(top.cls))
+                except Exception:
+                    r = False
+            self._rows_alias_v = r
+        return r
+
     def _inline_setter(self, c, st):
         """`self.m(a, b)` where m is a method of the same class that ONLY assigns attributes of the object (`self.x = a`,
         `self.base.y = b`, `self.base.n -= a`) is those assignments: moving a group of assignments into such a method, or back, is the
@@ -852,7 +871,15 @@ class Expander:
             b = self.bind.get(id(e))
             if b is not None:
                 return b
-            return T("attr", e.attr, [self._tr(e.value)], node=e)
+            v = self._tr(e.value)
+            if self._rows_alias():
+                # `self.nodes.index` IS `self._nodes_in_view` (`self.edges.index`: `_edges_in_view`): a view's tables are cut out of the
+                # base's with exactly these labels, a module's lists are read off its tables.  One spelling: the list.
+                if e.attr == "index" and v.op == "attr" and v.name in ("nodes", "edges") and v.args and v.args[0].op == "param" and v.args[0].name == "self":
+                    return T("attr", "_nodes_in_view" if v.name == "nodes" else "_edges_in_view", [v.args[0]], node=e)
+                if e.attr == "values" and v.op == "attr" and v.name in ("_nodes_in_view", "_edges_in_view"):
+                    return v
+            return T("attr", e.attr, [v], node=e)
         if isinstance(e, ast.Subscript):
             return T("sub", None, [self._tr(e.value), self._tr(e.slice)], node=e)
         if isinstance(e, ast.Slice):
@@ -867,7 +894,10 @@ class Expander:
                 kw[k.arg if k.arg is not None else "**"] = self._tr(k.value)
             f = e.func
             if isinstance(f, ast.Attribute):
-                return T("mcall", f.attr, [self._tr(f.value)] + args, kw, node=e)
+                recv = self._tr(f.value)
+                if f.attr == "to_numpy" and not args and not kw and recv.op == "attr" and recv.name in ("_nodes_in_view", "_edges_in_view") and self._rows_alias():
+                    return recv
+                return T("mcall", f.attr, [recv] + args, kw, node=e)
             if isinstance(f, ast.Name):
                 b = self.bind.get(id(f))
                 if b is not None and b.op not in ("free", "localfn"):
